@@ -560,6 +560,9 @@ func (x *Exec) loadPath(v Value, path []PathElem) Value {
 		if p.Idx != nil {
 			unsup("index step on struct")
 		}
+		if p.Field < 0 || p.Field >= len(vv.F) {
+			return UnknownV{nil, "field of an opaque library object"}
+		}
 		return x.loadPath(vv.F[p.Field], path[1:])
 	case ArrayV:
 		if p.Idx == nil {
@@ -662,6 +665,9 @@ func (x *Exec) storePath(v Value, path []PathElem, nv Value, guard *Term) Value 
 	p := path[0]
 	switch vv := v.(type) {
 	case StructV:
+		if p.Field < 0 || p.Field >= len(vv.F) {
+			return vv // an opaque object (modelled library value): its fields are not tracked
+		}
 		f := make([]Value, len(vv.F))
 		copy(f, vv.F)
 		f[p.Field] = x.storePath(vv.F[p.Field], path[1:], nv, guard)
